@@ -65,8 +65,12 @@ def impl(case):
     guard = synth.InputGuard(trajectory=traj)
     msd = traj.mean_squared_displacement()
     dist = traj.distances_from_base_position()
-    td = traj.metrics().tracer_diffusivity(dimensions=case['dim'])
-    return {'msd': msd.tolist(), 'dist_last': dist[:, -1].tolist(), 'tracer': float(td), 'inputs_changed': guard.changed()}
+    mt = traj.metrics()
+    order = [case['dim']] + [d for d in (3, 1, 2) if d != case['dim']]
+    by_dim = {d: float(mt.tracer_diffusivity(dimensions=d)) for d in order}        # one metrics object asked for every dimensionality in turn
+    td = by_dim[case['dim']]
+    return {'msd': msd.tolist(), 'dist_last': dist[:, -1].tolist(), 'tracer': float(td), 'tracer_by_dim': [[d, by_dim[d]] for d in order],
+            'inputs_changed': guard.changed()}
 
 
 def _unwrapped(case):
@@ -120,6 +124,11 @@ def oracle(case, out):
     want = sum(float(row[T - 1]) for row in ex) / len(ex) * 1e-20 / (2 * case['dim'] * T * case['dt'])
     if abs(out['tracer'] - want) > 1e-9 * abs(want) + 1e-40:
         fs.append(('tracer/definition', f'tracer diffusivity {out["tracer"]} expected {want}'))
+    for d, v in out.get('tracer_by_dim', []):
+        wd = want * case['dim'] / d
+        if abs(v - wd) > 1e-9 * abs(wd) + 1e-40:
+            fs.append(('tracer/definition-per-dimension', f'tracer_diffusivity(dimensions={d}) = {v} on a metrics object first asked for dimensions={case["dim"]}; the definition gives {wd}'))
+            break
     return fs
 
 
